@@ -15,9 +15,9 @@ pub fn def() -> CheckDef {
         id: "C04",
         title: "Control flow conforms to the YAML: order, branch selection, skips",
         case,
-        rule: "case = generated model of the bounded grammar (depth<=3, <=4 steps, <=3 branches, <=3 acts, conditions over inputs a,b in 0..3) x one valuation x three variants (declared branch order / shuffled / reversed, each under another scheduler policy, clock-tie rate and client mode); every variant is compared with the reference interpreter RefFlow (which nodes run, final states, ordering constraints on the trace) and the variants with each other (metamorphic: the outcome must not depend on declaration order or schedule). non-trivial = the model has a branching step or a conditional node and the three runs took >= 2 distinct schedules; distinct = distinct (model+valuation hash, schedule hash)",
+        rule: "case = generated model of the bounded grammar (depth<=3, <=4 steps, <=3 branches, <=3 acts, conditions over inputs a,b in 0..3; a quarter of the models with a backward `next` jump: counting step `linc`, jump step `lstep` (with an act, empty, or skipped) in the if-branch `c < K` of `ljmp`, optional else-branch, K in 2..4 visits) x one valuation x three variants (declared branch order / shuffled / reversed, each under another scheduler policy, clock-tie rate and client mode); every variant is compared with the reference interpreter RefFlow, loop models with RefLoop (visit after visit with the counter updated: number of instances per node and their final states; ordering constraints inside every visit) (which nodes run, final states, ordering constraints on the trace) and the variants with each other (metamorphic: the outcome must not depend on declaration order or schedule). non-trivial = the model has a branching step or a conditional node and the three runs took >= 2 distinct schedules; distinct = distinct (model+valuation hash, schedule hash)",
         level: "exploration",
-        assumptions: &["monotone simulated clock", "RefFlow interprets the fragment without writers, generators, catches and jumps; a needs-branch whose needed sibling was skipped is left open (either)", "runtime worker threads are approximated by task-level interleaving on layer 1"],
+        assumptions: &["monotone simulated clock", "RefFlow interprets the fragment without writers, generators and catches; jumps only in the one loop family (the counter act is the only writer); a needs-branch whose needed sibling was skipped is left open (either)", "runtime worker threads are approximated by task-level interleaving on layer 1"],
         probes: &["probe.else_taken", "probe.else_not_taken", "probe.needs_ran", "probe.step_skipped", "probe.act_skipped", "probe.nested_depth3", "probe.either_nodes", "probe.loop_model", "probe.loop_taken_twice_or_more"],
         quick_cases: 2500,
         no_shrink: &[],
